@@ -141,6 +141,14 @@ def _cdf_ordering(prog, uc, cf):
             okl = isinstance(loop, ast.For) and U(loop.target) == idx.id and pmatch(loop.iter, f"range(1, {xp}.size)") is not None
             okv = pmatch(val, f"quad(self.__call__, {v}[{idx.id} - 1], {v}[{idx.id}])[0]") is not None
             seenk = okl and okv
+            if not seenk and isinstance(loop, ast.For) and isinstance(loop.target, ast.Tuple) and len(loop.target.elts) == 2 \
+                    and U(loop.target.elts[0]) == idx.id and isinstance(loop.target.elts[1], ast.Tuple) and len(loop.target.elts[1].elts) == 2:
+                # the same intervals walked as consecutive pairs: for i, (lo, hi) in enumerate(zip(v[:-1], v[1:]), start=1)
+                lo, hi = (U(e) for e in loop.target.elts[1].elts)
+                it = rz.term(loop.iter, loop)
+                okl = any(pmatch(it, pt) is not None for pt in (f"enumerate(zip({v}[:-1], {v}[1:]), start=1)", f"enumerate(zip({v}[:-1], {v}[1:]), 1)"))
+                okv = pmatch(rz.term(st.value, st, keep=(lo, hi)), f"quad(self.__call__, {lo}, {hi})[0]") is not None
+                seenk = okl and okv
             if not seenk:
                 why.append(f"interval {idx.id} is `{U(val)}` in loop `{U(loop.iter) if isinstance(loop, ast.For) else None}`")
         else:
